@@ -202,6 +202,64 @@ theorem root_anc (c : List Nat) : c = List.replicate c.length 0 ∨ Anc (List.re
       · right; rw [← hl]; rw [h] at hc; exact Anc.step (by simpa using hc)
       · right; rw [← hl]; exact Anc.trans h hc
 
+/-- pointwise order on index tuples of one length -/
+def Le (t u : List Nat) : Prop := t.length = u.length ∧ ∀ (j a b : Nat), t[j]? = some a → u[j]? = some b → a ≤ b
+
+theorem Le.refl (t : List Nat) : Le t t := ⟨rfl, fun j a b ha hb => by rw [ha] at hb; cases hb; exact Nat.le_refl _⟩
+
+theorem Le.trans {t u v : List Nat} (h1 : Le t u) (h2 : Le u v) : Le t v := by
+  refine ⟨h1.1.trans h2.1, ?_⟩
+  intro j a c ha hc
+  have hj : j < u.length := by
+    have := (List.getElem?_eq_some_iff.mp ha).1; rw [← h1.1]; exact this
+  exact Nat.le_trans (h1.2 j a u[j] ha (List.getElem?_eq_getElem hj)) (h2.2 j u[j] c (List.getElem?_eq_getElem hj) hc)
+
+theorem succs_le : ∀ (c t : List Nat), t ∈ succs c → Le c t
+  | [], t, h => by simp [succs] at h
+  | x :: xs, t, h => by
+    simp only [succs, List.mem_cons] at h
+    rcases h with h | h
+    · subst h
+      refine ⟨rfl, ?_⟩
+      intro j a b ha hb
+      cases j with
+      | zero => simp at ha hb; omega
+      | succ j => simp at ha hb; rw [ha] at hb; cases hb; exact Nat.le_refl _
+    · split at h
+      · cases h
+      · rw [List.mem_map] at h
+        obtain ⟨t', ht', rfl⟩ := h
+        obtain ⟨h1, h2⟩ := succs_le xs t' ht'
+        refine ⟨by simp [h1], ?_⟩
+        intro j a b ha hb
+        cases j with
+        | zero => simp at ha hb; omega
+        | succ j => simp at ha hb; exact h2 j a b ha hb
+
+theorem Anc.le {c t : List Nat} (h : Anc c t) : Le c t := by
+  induction h with
+  | step hs => exact succs_le _ _ hs
+  | trans _ hs ih => exact ih.trans (succs_le _ _ hs)
+
+/-- converse of the expansion step: what is done afterwards was done before, or is the expanded tuple -/
+theorem Done.expand_conv {F : List (List Nat)} (c0 : List Nat) (F' : List (List Nat)) (hp : F'.Perm (succs c0 ++ F))
+    {c : List Nat} (h : Done F' c) : c = c0 ∨ Done (c0 :: F) c := by
+  rcases h with ⟨h1, h2⟩ | ⟨u, hu, ha⟩
+  · subst h1
+    by_cases hc : c0 = []
+    · exact Or.inl hc.symm
+    · right; left
+      refine ⟨rfl, ?_⟩
+      intro hm
+      rcases List.mem_cons.mp hm with hm | hm
+      · exact hc hm.symm
+      · exact h2 (hp.mem_iff.mpr (List.mem_append_right _ hm))
+  · rcases List.mem_append.mp (hp.mem_iff.mp hu) with hu | hu
+    · rcases ha.into_succ hu with h1 | h1
+      · exact Or.inl h1
+      · exact Or.inr (Or.inr ⟨c0, List.mem_cons_self, h1⟩)
+    · exact Or.inr (Or.inr ⟨u, List.mem_cons_of_mem _ hu, ha⟩)
+
 /-- adding a fresh ROOT tuple (all zeros) to a frontier in which it does not occur -/
 theorem Frontier.add_root {F : List (List Nat)} (z : List Nat) (hz : nonzero z = false) (hF : Frontier F) (hn : z ∉ F)
     (hall : ∀ t ∈ F, nonzero t = false) : Frontier (z :: F) := by
